@@ -1,0 +1,47 @@
+// Verification hooks: virtual clocks for the TSIG and RRL logic.
+//
+// This module only exists with the (off-by-default) cargo feature
+// `verif_hooks`. It lets an external checker decide what "now" is at
+// the two places where `Server::handle_message` consults a clock, so
+// that time-dependent behaviour (the TSIG fudge window, RRL refills
+// after idle periods of any length) can be explored deterministically.
+// The overrides are thread-local: they affect only calls made on the
+// thread that set them.
+
+use std::cell::Cell;
+use std::sync::OnceLock;
+use std::time::{Duration, Instant};
+
+use crate::rr::rdata::TimeSigned;
+
+thread_local! {
+    static TSIG_UNIX_TIME: Cell<Option<u64>> = const { Cell::new(None) };
+    static RRL_ELAPSED: Cell<Option<Duration>> = const { Cell::new(None) };
+}
+
+static RRL_BASE: OnceLock<Instant> = OnceLock::new();
+
+/// Overrides (`Some`) or restores (`None`) the time that TSIG processing
+/// on the current thread sees, as Unix time in seconds.
+pub fn set_tsig_unix_time(seconds: Option<u64>) {
+    TSIG_UNIX_TIME.with(|c| c.set(seconds));
+}
+
+/// Overrides (`Some`) or restores (`None`) the clock that the RRL code
+/// sees on the current thread. The virtual clock reads a fixed,
+/// process-wide base instant plus `elapsed`.
+pub fn set_rrl_elapsed(elapsed: Option<Duration>) {
+    RRL_ELAPSED.with(|c| c.set(elapsed));
+}
+
+pub(super) fn tsig_now() -> Option<TimeSigned> {
+    TSIG_UNIX_TIME
+        .with(|c| c.get())
+        .map(|s| TimeSigned::try_from_unix_time(s).expect("virtual TSIG time out of range"))
+}
+
+pub(super) fn rrl_now() -> Option<Instant> {
+    RRL_ELAPSED
+        .with(|c| c.get())
+        .map(|elapsed| *RRL_BASE.get_or_init(Instant::now) + elapsed)
+}
